@@ -294,9 +294,14 @@ def gen_history(R, src_len):
         elif r < 0.7:
             n = R.choice([0, 1, 1, 2, 3, src_len, src_len + 1, 2 ** 64 - 1, 2 ** 63, max(0, src_len - 1), max(0, src_len - 2), max(0, src_len - 3)])
             ops += ['bump', str(i), str(n)]
-        elif r < 0.85:
+        elif r < 0.8:
             ops += ['clone', str(i)]
             npool += 1
+        elif r < 0.86:
+            ops += ['fresh', R.choice(['0', '1'])]
+            npool += 1
+        elif r < 0.92:
+            ops += ['clonefrom', str(i), str(R.randrange(npool + 1))]
         else:
             ops += ['morph', str(i)]
     return ops
@@ -337,6 +342,15 @@ def check_c14(tier, seed, log=print):
                 for n in (1, 2):
                     ops = [first, '0'] * j + ['bump', '0', str(n), first, '0', first, '0', 'clone', '0', first, '1']
                     reqs.append('API %s 1 %s' % (P.hexs(src.encode('utf-8')), ' '.join(ops)))
+    # directed: lexers of both modes in one pool, one refreshed in place from the other (clone_from), at every position of an
+    # input that ends inside a token that could still grow; then both are asked
+    for src in ['ab .', 'ab 12', 'x1 y', 'é é']:
+        for p0 in (0, 1):
+            for warm in (0, 1, 2, 3):
+                for (a, b) in ((0, 1), (1, 0)):
+                    ops = ['fresh', str(1 - p0)] + ['next', str(b)] * warm + ['clonefrom', str(a), str(b), 'next', str(a), 'next', str(b), 'snext', str(a), 'snext', str(b),
+                                                                            'clone', str(a), 'next', '2']
+                    reqs.append('API %s %d %s' % (P.hexs(src.encode('utf-8')), p0, ' '.join(ops)))
     # small scope, exhaustively: after 0 or 2 warm-up calls, every sequence of three calls over a fixed menu (both handles of
     # the pool, in-range and out-of-range bumps), ordinary and partial lexer, followed by a read through both handles
     menu = [['next', '0'], ['snext', '0'], ['bump', '0', '1'], ['bump', '0', '2'], ['bump', '0', '99'], ['clone', '0'], ['morph', '0'], ['next', '1'], ['snext', '1'],
